@@ -5,8 +5,9 @@ Emit == (pc = "idle" /\ steps = MaxSteps) => PrintT(<<"REPLAY", ToJson(hist)>>)
 MVersions == {"v1", "v2", "v3", "v4"}
 MComps == {"c1", "c2"}
 MHasComp == [v \in MVersions |-> IF v = "v3" THEN {"c1", "c2"} ELSE {"c1"}]
-\* v2 reverses rule one; v3 adds rule two; v4 only differs from v1 in a comment
-MComp == [c \in MComps |-> [v \in MVersions |-> IF c = "c1" THEN (IF v = "v2" THEN "b" ELSE "a") ELSE "z"]]
+\* v2 reverses rule one; v3 adds rule two, whose query changes the index order rule one's library is
+\* compiled against (same rule text, different library); v4 only differs from v1 in a comment
+MComp == [c \in MComps |-> [v \in MVersions |-> IF c = "c1" THEN (IF v = "v2" THEN "b" ELSE IF v = "v3" THEN "c" ELSE "a") ELSE "z"]]
 MMod == [v \in MVersions |-> IF v = "v4" THEN "v1" ELSE v]
 MCompOrder == <<"c1", "c2">>
 ====
